@@ -6,7 +6,7 @@ import ctximpl
 
 KIND = "ctx"
 SPECS = ["C14"]
-THEOREMS = []
+THEOREMS = ["C14.inv_runSt", "C14.I1", "C14.I2_alternation", "C14.I3", "C14.final_ups"]
 LEAN_MODULES = ["TbotVerif.Props.C14"]
 QUICK_N, THOROUGH_N = 6000, 90000
 QUICK_BUDGET, THOROUGH_BUDGET = 45, 600
